@@ -15,10 +15,32 @@ func init() { register("c01", runC01) }
 type blockLog struct {
 	r      *RNG
 	blocks []ot.Label
+	// and: when set, every 16-byte block is ANDed with this mask before it is handed out
+	// (directed randomness: all-zero blocks, blocks whose low / high 32-bit words are zero...).
+	// C01 quantifies over ALL label randomness; structured values are where a comparison or
+	// a multiplication that looks at only part of a label goes wrong.
+	and *[16]byte
 }
+
+// c01RandPatterns: AND masks for directed label randomness.
+var c01RandPatterns = map[string][16]byte{
+	"all-zero":        {},
+	"low-words-zero":  {0xff, 0xff, 0xff, 0xff, 0, 0, 0, 0, 0xff, 0xff, 0xff, 0xff, 0, 0, 0, 0},
+	"high-words-zero": {0, 0, 0, 0, 0xff, 0xff, 0xff, 0xff, 0, 0, 0, 0, 0xff, 0xff, 0xff, 0xff},
+	"d1-zero":         {0xff, 0xff, 0xff, 0xff, 0xff, 0xff, 0xff, 0xff},
+	"d0-zero":         {0, 0, 0, 0, 0, 0, 0, 0, 0xff, 0xff, 0xff, 0xff, 0xff, 0xff, 0xff, 0xff},
+	"one-byte":        {0, 0, 0, 0, 0, 0, 0, 0, 0, 0, 0, 0, 0, 0, 0, 0xff},
+	"top-byte":        {0xff},
+}
+var c01RandPatternNames = []string{"all-zero", "low-words-zero", "high-words-zero", "d1-zero", "d0-zero", "one-byte", "top-byte"}
 
 func (b *blockLog) Read(p []byte) (int, error) {
 	n, err := b.r.Read(p)
+	if len(p) == 16 && b.and != nil {
+		for i := range p {
+			p[i] &= b.and[i]
+		}
+	}
 	if len(p) == 16 {
 		var l ot.Label
 		l.SetBytes(p)
@@ -114,6 +136,12 @@ func runC01(c *Ctx) error {
 		}
 		for round := 0; round < rounds; round++ {
 			rd := &blockLog{r: r.Fork()}
+			if i%10 == 4 && !overwrites {
+				name := c01RandPatternNames[(i/10+round)%len(c01RandPatternNames)]
+				m := c01RandPatterns[name]
+				rd.and = &m
+				c.Hist("randomness:" + name)
+			}
 			g, err := circ.Garble(rd, key)
 			if err != nil {
 				return fmt.Errorf("case %d round %d: Garble: %v", i, round, err)
